@@ -3,6 +3,7 @@ from __future__ import annotations
 from collections.abc import Iterable
 
 import mypy.types as types
+from mypy.nodes import Decorator, OverloadedFuncDef
 from mypy.types import TypeVisitor
 
 
@@ -125,11 +126,16 @@ class TypeIndirectionVisitor(TypeVisitor[None]):
                 self._visit(t.type.tuple_type)
             if t.type.is_protocol:
                 # For protocols, member types constitute the semantic meaning of the type.
-                # TODO: this doesn't cover some edge cases, like setter types and exotic nodes.
+                # TODO: this doesn't cover some edge cases, like exotic nodes.
                 for m in t.type.protocol_members:
-                    node = t.type.names.get(m)
+                    # Members may be inherited from a base protocol.
+                    node = t.type.get(m)
                     if node and node.type:
                         self._visit(node.type)
+                    if node and isinstance(node.node, OverloadedFuncDef) and node.node.is_property:
+                        first = node.node.items[0]
+                        if isinstance(first, Decorator) and first.var.setter_type is not None:
+                            self._visit(first.var.setter_type)
 
     def visit_callable_type(self, t: types.CallableType) -> None:
         self._visit_type_list(t.arg_types)
